@@ -893,6 +893,17 @@ theorem auto_atomic_certified {e : Env} {o : Oracle} (hs : o.Sound e) {p p' : Pa
     (start : Nat) : find e p false start = find e p' false start :=
   find_congr_head (certTop_headEq hs h) start
 
+/-- the same for either direction of the pattern (`RegexOptions.RightToLeft`): right-to-left only
+    the tail-position rewrites are certified — the first factor of a concatenation is the one
+    evaluated last (`atomic_at_end_rtl`) -/
+theorem auto_atomic_certified_dir {e : Env} {o : Oracle} (hs : o.Sound e) {rtl : Bool} {p p' : Pat}
+    (h : certTopDir o rtl p p' = true) (start : Nat) : find e p rtl start = find e p' rtl start :=
+  find_congr_head (certTopDir_headEq hs h) start
+
+/-- right-to-left `a*b` ⇒ `(?>a*)b` is certified (the loop runs last), `ab*` ⇒ `a(?>b*)` is not -/
+example : certTopDir o0 true (.seq (star 97) (lit 98)) (.seq (.atomic (star 97)) (lit 98)) = true
+    ∧ certTopDir o0 true (.seq (lit 97) (star 98)) (.seq (lit 97) (.atomic (star 98))) = false := by decide
+
 /-- `a*?b(?:c+|d*)` ⇒ `(?>a*)b(?>(?>c+)|(?>d*))` (lazy to greedy, ending loops, wrapped alternation) -/
 example : certTop o0
     (.seq (lazyStar 97) (.seq (lit 98) (.alt (plus 99) (star 100))))
